@@ -29,7 +29,7 @@ theorem fold_abs (parts : List Str) (st : List Str) :
             List.foldl_cons]
           have : cleanStep (Comp.root :: st.map Comp.normal) Comp.parent
               = Comp.root :: (st.dropLast).map Comp.normal := by
-            simp only [cleanStep, List.length_cons, gt_iff_lt, Nat.zero_lt_succ, if_true, popStack]
+            simp only [cleanStep]
             cases hst : st.reverse with
             | nil =>
               have : st = [] := by simpa using hst
